@@ -1,7 +1,7 @@
 (** Extraction of the executable model (ExtrOcamlBasic only; numbers stay
     extracted inductives). *)
 From Coq Require Import Extraction ExtrOcamlBasic.
-From Oal Require Import Text Position Tag Unify Loader Merge SpecUri Cast Cycles Resolve.
+From Oal Require Import Text Position Tag Unify Loader Merge SpecUri Cast Cycles Resolve Lsp.
 Extraction Language OCaml.
 Separate Extraction
   Text.len8s Text.len16s Text.crlf_wf Text.split_at8 Text.utf16
@@ -13,4 +13,5 @@ Separate Extraction
   SpecUri.pattern SpecUri.path_params SpecUri.xfer_id SpecUri.status_of_number SpecUri.status_of_literal SpecUri.braces
   Cast.check Cast.admits Cast.cast_ok Cast.known
   Cycles.cycles_check
-  Resolve.resolve_module.
+  Resolve.resolve_module
+  Lsp.run.
